@@ -779,3 +779,172 @@ func init() {
 		},
 	})
 }
+
+// ---- C05-f: a retained row does not live in a recycled buffer ----
+
+// retainedParams: slice parameters that fn keeps (stores the slice itself, not a
+// copy) in storage reachable from its receiver.
+func retainedParams(fn *ssa.Function) map[int]bool {
+	out := map[int]bool{}
+	if fn.Signature.Recv() == nil || len(fn.Params) < 2 {
+		return out
+	}
+	recv := fn.Params[0]
+	fromRecv := func(v ssa.Value) bool {
+		for x := range backward(v, nil) {
+			if x == ssa.Value(recv) {
+				return true
+			}
+		}
+		return false
+	}
+	for i, par := range fn.Params[1:] {
+		if _, ok := par.Type().Underlying().(*types.Slice); !ok {
+			continue
+		}
+		same := forward([]ssa.Value{par}, fwdOpts{noBinOp: true})
+		for _, b := range fn.Blocks {
+			for _, in := range b.Instrs {
+				switch x := in.(type) {
+				case *ssa.Store:
+					if same[x.Val] && x.Val.Type() == par.Type() {
+						if _, isAlloc := x.Addr.(*ssa.Alloc); !isAlloc && fromRecv(x.Addr) {
+							out[i+1] = true
+						}
+						// element of a literal that is appended to receiver state
+						if ia, ok := x.Addr.(*ssa.IndexAddr); ok {
+							if al, ok := ia.X.(*ssa.Alloc); ok {
+								for _, ref := range *al.Referrers() {
+									if sl, ok := ref.(*ssa.Slice); ok {
+										for _, r2 := range *sl.Referrers() {
+											if c, ok := r2.(*ssa.Call); ok && isBuiltin(c, "append") && len(c.Call.Args) == 2 && c.Call.Args[1] == ssa.Value(sl) && fromRecv(c.Call.Args[0]) {
+												out[i+1] = true
+											}
+										}
+									}
+								}
+							}
+						}
+					}
+				}
+			}
+		}
+	}
+	return out
+}
+
+// selfFed: call is `x = F(…, x, …)` in a loop — one of its arguments is the
+// (loop-carried) slice result of the same call: F works in the caller's buffer.
+func selfFed(call *ssa.Call) bool {
+	results := map[ssa.Value]bool{}
+	if _, ok := call.Type().Underlying().(*types.Slice); ok {
+		results[call] = true
+	}
+	for _, ref := range *call.Referrers() {
+		if ex, ok := ref.(*ssa.Extract); ok {
+			if sl, ok := ex.Type().Underlying().(*types.Slice); ok {
+				if _, nested := sl.Elem().Underlying().(*types.Slice); nested {
+					results[ex] = true
+				}
+			}
+		}
+	}
+	if len(results) == 0 {
+		return false
+	}
+	for _, a := range call.Call.Args {
+		if sl, ok := a.Type().Underlying().(*types.Slice); !ok {
+			continue
+		} else if _, nested := sl.Elem().Underlying().(*types.Slice); !nested {
+			continue
+		}
+		for x := range backward(a, func(v ssa.Value) bool { _, isCall := v.(*ssa.Call); return !isCall }) {
+			if results[x] {
+				return true
+			}
+		}
+	}
+	return false
+}
+
+func init() {
+	register(&Rule{
+		ID: "C05-f", Template: "ownership (retained × recycled)",
+		Doc: "Rows collected for the merge result keep their content: if a method keeps the row slice it is given (stores the slice itself into its receiver's state, as opposed to copying the cells), then no production caller passes it a row that lives in a recycled buffer — an element of a [][]string that the caller feeds back, iteration after iteration, into the function that filled it (x = f(…, x, …)). The next block would overwrite rows that are still waiting in the sorter, and the sorter's duplicate filter then silently drops them.",
+		Min: 1,
+		Run: func(p *Program, r *RuleResult) error {
+			if _, err := p.SSAFunc("pkg/sorter.(*Sorter).AddRow"); err != nil {
+				return err
+			}
+			fns := p.ProdFuncs()
+			r.Analysed = len(fns)
+			retainers := map[*ssa.Function]map[int]bool{}
+			for _, fn := range fns {
+				if m := retainedParams(fn); len(m) > 0 {
+					retainers[fn] = m
+				}
+			}
+			// retention through a wrapper that passes its own parameter on
+			for round := 0; round < 3; round++ {
+				for _, fn := range fns {
+					for i, par := range fn.Params {
+						if retainers[fn][i] {
+							continue
+						}
+						if _, ok := par.Type().Underlying().(*types.Slice); !ok {
+							continue
+						}
+						same := forward([]ssa.Value{par}, fwdOpts{noBinOp: true})
+						eachCall(fn, func(c ssa.CallInstruction) {
+							sc := c.Common().StaticCallee()
+							if sc == nil || retainers[sc] == nil {
+								return
+							}
+							for k := range retainers[sc] {
+								if k < len(c.Common().Args) && same[c.Common().Args[k]] {
+									if retainers[fn] == nil {
+										retainers[fn] = map[int]bool{}
+									}
+									retainers[fn][i] = true
+								}
+							}
+						})
+					}
+				}
+			}
+			r.note("methods that keep a slice parameter in their receiver's state: %d", len(retainers))
+			n := 0
+			for _, fn := range fns {
+				eachCall(fn, func(c ssa.CallInstruction) {
+					sc := c.Common().StaticCallee()
+					if sc == nil || retainers[sc] == nil {
+						return
+					}
+					for k := range retainers[sc] {
+						if k >= len(c.Common().Args) {
+							continue
+						}
+						for x := range backward(c.Common().Args[k], func(v ssa.Value) bool { _, isCall := v.(*ssa.Call); return !isCall }) {
+							var src *ssa.Call
+							switch y := x.(type) {
+							case *ssa.Extract:
+								src, _ = y.Tuple.(*ssa.Call)
+							case *ssa.Call:
+								src = y
+							}
+							if src != nil && selfFed(src) {
+								n++
+								r.bad(callKey(fn, c)+"|recycled", p.Rel(c.Pos()), "a retained row does not live in a recycled buffer",
+									fmt.Sprintf("%s keeps the slice it is given, and %s passes it an element of the buffer that %s (%s) refills on every iteration", funcName(sc), funcName(fn), calleeLabel(src), p.Rel(src.Pos())))
+							}
+						}
+					}
+				})
+			}
+			if n == 0 {
+				r.ok("production|retained-rows", "", "a retained row does not live in a recycled buffer")
+			}
+			return nil
+		},
+	})
+}
